@@ -301,6 +301,7 @@ class GenParams:
         self.p_unknown_last = 0.0
         self.names = NAME_POOL
         self.min_vals = 0
+        self.p_permute = 0.12       # a new object list naming the previous list's objects in another order
         self.__dict__.update(kw)
 
 
@@ -320,6 +321,7 @@ def gen_file(rng, P=None):
     file_big = rng.random() < P.p_big
     segs = []
     st = SpecState()
+    prev_entries = None
     nsegs = rng.randint(1, P.max_segs)
     for si in range(nsegs):
         e = (">" if rng.random() < P.p_big else "<") if P.mixed_endian else (">" if file_big else "<")
@@ -328,6 +330,23 @@ def gen_file(rng, P=None):
         entries = None
         if si > 0 and rng.random() < P.p_nometa:
             toc = TOC_RAW          # metadata-less segment: everything carries over
+        elif si > 0 and prev_entries and len(prev_entries) > 1 and rng.random() < P.p_permute:
+            # the same objects as the previous metadata block, listed in another order in a NEW object list
+            # (same set of paths, different positions: what an order-insensitive cache key would confuse)
+            toc |= TOC_NEWLIST
+            entries = []
+            for x in prev_entries:
+                if isinstance(x.idx, tuple):
+                    dt = x.idx[2]
+                    n = rng.randint(P.min_vals, P.max_vals)
+                    entries.append(Entry(x.path, ("full", 28 if dt == T_STRING else 20, dt, 1, n, None), []))
+                elif x.idx == "prev" and x.path in st.last_index:
+                    entries.append(Entry(x.path, "prev", []))
+                else:
+                    entries.append(Entry(x.path, None, []))
+            order = entries[:]
+            while len(entries) > 1 and [y.path for y in entries] == [y.path for y in order]:
+                rng.shuffle(entries)
         else:
             if si == 0 or rng.random() > P.p_keep_list:
                 toc |= TOC_NEWLIST
@@ -358,6 +377,8 @@ def gen_file(rng, P=None):
                     entries.append(Entry(p, ("full", 28 if dt == T_STRING else 20, dt, 1, n, None), props))
                 listed.add(p)
             rng.shuffle(entries)
+        if entries is not None:
+            prev_entries = entries
         seg = Seg(e=e, toc=toc, version=version, entries=entries)
         # decide layout before fixing string totals: apply metadata on a copy of the state
         st.apply_metadata(seg)
